@@ -1041,6 +1041,18 @@ func (f *Frame) pureApply(c *Contract, fn *types.Func, recv Val, args []Val, st 
 		if rs == SInt {
 			in.ufRangeAxiom(name, sorts, rt)
 		}
+		if at, isArr := rt.Underlying().(*types.Array); isArr && rs == ArrSort(SInt) {
+			// a fixed-size array result is canonical outside its bounds (arrays are total in SMT): two
+			// results that agree on their live indices are then equal as map keys / function arguments
+			var vars []Term
+			for i, s := range sorts {
+				vars = append(vars, Term{S: fmt.Sprintf("a%d", i), Sort: s})
+			}
+			jv := Term{S: "j!c", Sort: SInt}
+			sel := Select(App(name, rs, vars...), jv)
+			body := Implies(Or(Lt(jv, IntLit(0)), Le(IntLit(at.Len()), jv)), Eq(sel, IntLit(0)))
+			in.D.declareOnce("ufcanon:"+name, fmt.Sprintf("(assert %s)", Forall(append(vars, jv), body, []Term{sel}).S))
+		}
 		res = append(res, in.thaw(t, rt, f))
 	}
 	in.note("pure method/function (uninterpreted function of receiver and arguments; assumption: it is a side-effect-free, deterministic getter): " + c.Pkg + "." + c.Name)
